@@ -84,6 +84,31 @@ class Normalise(ast.NodeTransformer):
         node.body = self.unguard(node.body)
         return node
 
+    @staticmethod
+    def terminal(stmts):
+        return bool(stmts) and isinstance(stmts[-1], (ast.Raise, ast.Return))
+
+    def hoist_else(self, stmts):
+        """`if c: …; return/raise` followed by `else: B` (or `elif`) is the `if` without `else`, followed by B"""
+        out = []
+        for st in stmts:
+            if isinstance(st, ast.If) and st.orelse and self.terminal(st.body):
+                rest = st.orelse
+                st = ast.copy_location(ast.If(test=st.test, body=st.body, orelse=[]), st)
+                out.append(st)
+                out += self.hoist_else(rest)
+            else:
+                out.append(st)
+        return out
+
+    def generic_visit(self, node):
+        super().generic_visit(node)
+        for f in ('body', 'orelse', 'finalbody'):
+            v = getattr(node, f, None)
+            if isinstance(v, list) and v and isinstance(v[0], ast.stmt):
+                setattr(node, f, self.hoist_else(v))
+        return node
+
     def visit_Expr(self, node):
         self.generic_visit(node)
         v = node.value
@@ -1116,6 +1141,13 @@ class TrPhoenix(Tr):
         s_ = self.e(n)
         return s_ if (s_.isalnum() or s_.replace('_', '').isalnum() or s_.startswith('(') or s_.startswith('[')) else '(%s)' % s_
 
+    def b(self, n):
+        # the truth value of a string is "not empty": `not s.strip()` is `s.strip() == ''`
+        if isinstance(n, ast.UnaryOp) and isinstance(n.op, ast.Not) and isinstance(n.operand, ast.Call) \
+                and isinstance(n.operand.func, ast.Attribute) and n.operand.func.attr == 'strip' and not n.operand.args:
+            return '(%s == [])' % self.e(n.operand)
+        return super().b(n)
+
     def stmt0(self, s, ind):
         if isinstance(s, ast.Raise):
             return ['%sreturn Phx.POut.parseError' % ind]
@@ -1187,6 +1219,13 @@ class TrPhoenixProt(TrPhoenix):
                 # a parsed line is None (false) or the pair (key, value)
                 return ['%sif let Phx.POut.pair k_ v_ := %s then' % (ind, x), '%s  result := Phx.setKey result k_ v_' % ind]
             raise Unsupported('use of the parse result: ' + self.src(a))
+        if isinstance(s, ast.If) and not s.orelse and isinstance(s.test, ast.Name) and s.test.id in getattr(self, 'pout_vars', ()) \
+                and len(s.body) == 2 and isinstance(s.body[0], ast.Assign) and isinstance(s.body[0].targets[0], ast.Tuple) \
+                and len(s.body[0].targets[0].elts) == 2 and self.src(s.body[0].value) == s.test.id and isinstance(s.body[1], ast.Assign):
+            a_, b_ = (self.src(t_) for t_ in s.body[0].targets[0].elts)
+            if self.src(s.body[1].targets[0]) == 'result[%s]' % a_ and self.src(s.body[1].value) == b_:
+                # `k, v = parse_result; result[k] = v`
+                return ['%sif let Phx.POut.pair k_ v_ := %s then' % (ind, s.test.id), '%s  result := Phx.setKey result k_ v_' % ind]
         return Tr.stmt0(self, s, ind) if isinstance(s, (ast.If, ast.For, ast.Assign)) else super().stmt0(s, ind)
 
 
@@ -2517,7 +2556,18 @@ def translate():
                                                                                               args=[node.value], keywords=[])), node)
                 return node
         tr.attrs['SOME_(_0)'] = '(some {0})'
-        body = [ast.fix_missing_locations(SomeWrap().visit(copy.deepcopy(st))) for st in outer] + list(inner.body)
+        inner_body = [st for st in inner.body if not (isinstance(st, ast.Expr) and isinstance(st.value, ast.Constant))]
+        # the result is only ever tested for truth: `if x is None: return None` followed by `return E` is `return x and E`
+        if len(inner_body) == 2 and isinstance(inner_body[0], ast.If) and not inner_body[0].orelse and len(inner_body[0].body) == 1 \
+                and isinstance(inner_body[0].body[0], ast.Return) and ast.unparse(inner_body[0].body[0]) in ('return None', 'return False') \
+                and isinstance(inner_body[0].test, ast.Compare) and isinstance(inner_body[0].test.ops[0], ast.Is) \
+                and ast.unparse(inner_body[0].test.comparators[0]) == 'None' and isinstance(inner_body[0].test.left, ast.Name) \
+                and isinstance(inner_body[1], ast.Return) and inner_body[1].value is not None:
+            x_ = inner_body[0].test.left
+            e_ = inner_body[1].value
+            vals_ = [ast.Name(id=x_.id, ctx=ast.Load())] + (list(e_.values) if isinstance(e_, ast.BoolOp) and isinstance(e_.op, ast.And) else [e_])
+            inner_body = [ast.fix_missing_locations(ast.copy_location(ast.Return(value=ast.BoolOp(op=ast.And(), values=vals_)), inner_body[1]))]
+        body = [ast.fix_missing_locations(SomeWrap().visit(copy.deepcopy(st))) for st in outer] + inner_body
         emit('key_regex_filter', '{ρ κ : Type} (mtch : ρ → κ → Bool) (exclude_res force_include_res : List ρ) (key : κ) : Except PyErr Bool',
              body, tr,
              'the filter `make_key_regex_filter(exclude_res, force_include_res)` returns (dcmstack.py), applied to a key: the body of '
